@@ -2,6 +2,8 @@ package main
 
 import (
 	"bytes"
+	"runtime"
+	"sync/atomic"
 	"errors"
 	"strconv"
 	"strings"
@@ -225,7 +227,74 @@ func (w *walker) list(l capnp.List) {
 
 // execConc: "read conc <T> <k> <n> <segs>": k goroutines dereference the root's pointer 0
 // n times each on one shared message; the bytes granted plus the remaining budget must not exceed T.
+// execConcRounds: "read concx <k> <rounds> <segs>": k goroutines, released together round after round, each
+// dereference the root's pointer 0 once while the budget (reset before every round) admits exactly one of them:
+// the budget check and its debit must be one atomic step.
+func execConcRounds(t []string) string {
+	k, _ := strconv.Atoi(t[1])
+	rounds, _ := strconv.Atoi(t[2])
+	segs, ok := parseSegs(t[3])
+	if !ok {
+		return "bad-op"
+	}
+	msg := &capnp.Message{Arena: capnp.MultiSegment(segs), TraverseLimit: 1 << 30}
+	root, err := msg.Root()
+	if err != nil || !root.Struct().IsValid() {
+		return "ok"
+	}
+	rs := root.Struct()
+	p0, err := rs.Ptr(0)
+	if err != nil || !p0.Struct().IsValid() {
+		return "ok"
+	}
+	cost := uint64(p0.Struct().Size().DataSize) + 8*uint64(p0.Struct().Size().PointerCount)
+	if cost == 0 {
+		return "ok"
+	}
+	var round, done int64
+	granted := make([]uint64, k)
+	for g := 0; g < k; g++ {
+		go func(g int) {
+			for r := int64(1); r <= int64(rounds); r++ {
+				for atomic.LoadInt64(&round) < r {
+					runtime.Gosched()
+				}
+				if p, err := rs.Ptr(0); err == nil && p.Struct().IsValid() {
+					atomic.AddUint64(&granted[g], cost)
+				}
+				atomic.AddInt64(&done, 1)
+			}
+		}(g)
+	}
+	bad := ""
+	for r := int64(1); r <= int64(rounds); r++ {
+		limit := cost + uint64(r)%cost // admits one dereference, not two
+		msg.ResetReadLimit(limit)
+		for g := range granted {
+			atomic.StoreUint64(&granted[g], 0)
+		}
+		atomic.StoreInt64(&round, r)
+		for atomic.LoadInt64(&done) < r*int64(k) {
+			runtime.Gosched()
+		}
+		total := uint64(0)
+		for g := range granted {
+			total += atomic.LoadUint64(&granted[g])
+		}
+		if rl := msg.VerifReadLimit(); bad == "" && (total+rl > limit || rl > limit) {
+			bad = "over round=" + strconv.FormatInt(r, 10) + " granted=" + strconv.FormatUint(total, 10) + " rl=" + strconv.FormatUint(rl, 10) + " limit=" + strconv.FormatUint(limit, 10)
+		}
+	}
+	if bad != "" {
+		return bad
+	}
+	return "ok"
+}
+
 func execConc(t []string) string {
+	if len(t) == 4 && t[0] == "concx" {
+		return execConcRounds(t)
+	}
 	if len(t) != 5 {
 		return "bad-op"
 	}
@@ -682,7 +751,7 @@ func execEqual(t []string) string {
 
 // execRead: "read walk <T> <D> <segs>"
 func execRead(t []string) string {
-	if len(t) > 0 && t[0] == "conc" {
+	if len(t) > 0 && (t[0] == "conc" || t[0] == "concx") {
 		return execConc(t)
 	}
 	if len(t) >= 3 && t[0] == "nopanic" {
